@@ -940,7 +940,12 @@ func wholeStore(al *ssa.Alloc) ssa.Value {
 				return nil
 			}
 			st = y
-		case *ssa.UnOp, *ssa.DebugRef, *ssa.FieldAddr, *ssa.IndexAddr:
+		case *ssa.UnOp, *ssa.DebugRef:
+		case *ssa.FieldAddr, *ssa.IndexAddr:
+			// a copy whose parts are written afterwards (u := base; u.Host = h) is a new value, not a name for the original
+			if partWritten(y.(ssa.Value), 0) {
+				return nil
+			}
 		case *ssa.Call:
 			// receiver of a pure getter (a by-value parameter spilled because the method has a pointer receiver)
 			sc := y.Call.StaticCallee()
@@ -1230,4 +1235,31 @@ func (fc *FuncCtx) structResultAP(c *ssa.Call, idx int) string {
 		}
 	}
 	return ap
+}
+
+// partWritten: the address of a part of a local (a field or element address) is stored through, or escapes to code that
+// may store through it.
+func partWritten(addr ssa.Value, depth int) bool {
+	if depth > 4 || addr.Referrers() == nil {
+		return true
+	}
+	for _, r := range *addr.Referrers() {
+		switch y := r.(type) {
+		case *ssa.UnOp, *ssa.DebugRef:
+		case *ssa.Store:
+			return true
+		case *ssa.FieldAddr, *ssa.IndexAddr:
+			if partWritten(y.(ssa.Value), depth+1) {
+				return true
+			}
+		case *ssa.Call:
+			sc := y.Call.StaticCallee()
+			if sc == nil || sc.Signature.Recv() == nil || !pureMethodNames[sc.Name()] || len(y.Call.Args) == 0 || y.Call.Args[0] != addr {
+				return true
+			}
+		default:
+			return true
+		}
+	}
+	return false
 }
